@@ -523,6 +523,127 @@ def lifecycle_case(seed, role="client", cause="peer-disconnect", consumer=True):
         return info
 
 
+def base_answers_case(seed, role="client"):
+    """C07 on the real loopback: bursts of DWR / CER / DPR with boundary identifiers, answers must pair one to one, in order,
+    with the request's identifiers, local origin and a Result-Code; then the same object is started again and the exchange repeated."""
+    rng = random.Random(seed)
+    sc = RealScenario(role)
+    info = {"kind": "base", "seed": seed, "role": role}
+    BOUND = [0, 1, 2 ** 31, 2 ** 32 - 1, 2 ** 31 - 1, 0x01000000, 255, 256]
+
+    def ident():
+        return rng.choice(BOUND) if rng.random() < 0.5 else rng.randrange(2 ** 32)
+
+    def exchange(tag):
+        reqs = []
+        for _ in range(rng.randrange(3, 25)):
+            kind = rng.choice(["DWR", "DWR", "DWR", "CER", "APP"])
+            h, e = ident(), ident()
+            if rng.random() < 0.2:
+                e = h
+            if kind == "DWR":
+                reqs.append(("DWA", h, e, R.encode(N.dwr(hbh=h, e2e=e))))
+            elif kind == "CER":
+                reqs.append(("CEA", h, e, R.encode(N.cer(apps=[16777251], hbh=h, e2e=e))))
+            else:
+                reqs.append((None, h, e, R.encode(N.app_answer(5000 + len(reqs)))))      # inbound traffic that provokes no answer
+        h, e = ident(), ident()
+        reqs.append(("DPA", h, e, R.encode(N.dpr(hbh=h, e2e=e))))
+        blob = b"".join(r[3] for r in reqs)
+        if rng.random() < 0.5:
+            sc.psock.sendall(blob)
+        else:
+            i = 0
+            while i < len(blob):
+                k = rng.choice([1, 7, 20, 21, 100, 1000])
+                sc.psock.sendall(blob[i:i + k])
+                i += k
+        want = [(n, h, e) for n, h, e, _ in reqs if n]
+        lms, _ = sc.recv_messages(len(want))
+        got = [(N.name_of(m), m.hbh, m.e2e) for m in lms]
+        if got != want:
+            return "%s: answers %s..., requests %s..." % (tag, got[:8], want[:8])
+        for m in lms:
+            if m.flags & 0x80:
+                return "%s: %s has the R flag set" % (tag, N.name_of(m))
+            codes = {a.code: a.value for a in m.avps}
+            if codes.get(264) != N.LOCAL[0].encode() or codes.get(296) != N.LOCAL[1].encode() or 268 not in codes:
+                return "%s: %s carries origin %r/%r, result %r" % (tag, N.name_of(m), codes.get(264), codes.get(296), codes.get(268))
+        info["answers_checked"] = info.get("answers_checked", 0) + len(want)
+        return None
+    try:
+        sc.open()
+        bad = exchange("first connection")
+        if bad:
+            info.update(result="violation", key="real-loopback-base-answers-differ", detail=bad)
+            sc.abort()
+            return info
+        sc.wait(lambda: sc.node.get_current_state() == "Closed", "Closed after DPR")
+        sc.psock.close()
+        if sc.lsock:
+            sc.lsock.close()
+        # reconnect with the same node object
+        node = sc.node
+        sc.buf = bytearray()
+        sc.ready = []
+
+        def leftover():
+            return [t.name for t in threading.enumerate() if t not in sc.threads_before and t.is_alive() and not t.daemon]
+        sc.wait(lambda: not leftover(), "threads after first connection", 20)
+        if role == "client":
+            sc.lsock = socket.socket()
+            sc.lsock.setsockopt(socket.SOL_SOCKET, socket.SO_REUSEADDR, 1)
+            sc.lsock.bind(("127.0.0.1", node.config["PEER_NODE_PORT"]))
+            sc.lsock.listen()
+            node.start()
+            sc.lsock.settimeout(sc.deadline)
+            try:
+                sc.psock, _ = sc.lsock.accept()
+            except socket.timeout:
+                raise Timeout("restarted node never connected")
+            (cer,), _ = sc.recv_messages(1)
+            sc.psock.sendall(R.encode(N.cea(hbh=cer.hbh, e2e=cer.e2e, apps=[16777251])))
+        else:
+            threading.Thread(target=node.start, daemon=True, name="starter2").start()
+            t_end = time.monotonic() + sc.deadline
+            while True:
+                sc.psock = socket.socket()
+                try:
+                    sc.psock.connect(("127.0.0.1", node.config["LOCAL_NODE_PORT"]))
+                    break
+                except OSError:
+                    sc.psock.close()
+                    if time.monotonic() > t_end:
+                        raise Timeout("restarted node never listened")
+                    time.sleep(0.01)
+            h, e = ident(), ident()
+            sc.psock.sendall(R.encode(N.cer(apps=[16777251], hbh=h, e2e=e)))
+            (cea,), _ = sc.recv_messages(1)
+            if (N.name_of(cea), cea.hbh, cea.e2e) != ("CEA", h, e):
+                info.update(result="violation", key="real-loopback-base-answers-differ",
+                            detail="second connection: CEA %r for CER %r" % ((cea.hbh, cea.e2e), (h, e)))
+                sc.abort()
+                return info
+        sc.wait(lambda: node.is_open(), "restarted node open")
+        bad = exchange("second connection")
+        if bad:
+            info.update(result="violation", key="real-loopback-base-answers-differ", detail=bad)
+            sc.abort()
+            return info
+        sc.wait(lambda: node.get_current_state() == "Closed", "Closed after second DPR")
+        sc.abort()
+        info.update(result="ok")
+        return info
+    except Timeout as ex:
+        info.update(result="timeout", detail=str(ex))
+        sc.abort()
+        return info
+    except Garbled as ex:
+        info.update(result="violation", key="real-loopback-outbound-stream-garbled", detail=str(ex))
+        sc.abort()
+        return info
+
+
 DEATHS = []
 
 
@@ -535,7 +656,7 @@ def _excepthook(args):
 def run_cases(acc, cases):
     """cases: [{'kind','seed','role',...}] executed one after another; a timeout is retried once, alone, before it counts."""
     threading.excepthook = _excepthook          # uncaught exceptions of the node's threads go into the report, not to stderr
-    fn = {"inbound": inbound_case, "outbound": outbound_case, "lifecycle": lifecycle_case}
+    fn = {"inbound": inbound_case, "outbound": outbound_case, "lifecycle": lifecycle_case, "base": base_answers_case}
     for c in cases:
         args = {k: v for k, v in c.items() if k != "kind"}
         del DEATHS[:]
